@@ -17,7 +17,7 @@ from .. import values as V
 from .. import impl
 
 PID = 'C12'
-FAMILIES = ['agg', 'logic', 'math', 'text']
+FAMILIES = ['agg', 'logic', 'math', 'text', 'lift']
 
 
 def _col(i):
@@ -62,7 +62,12 @@ def _shard(items):
     res = []
     for o in items:
         formula, inputs = render(o)
-        st, val = impl.observe(impl.with_timeout, impl.cell_eval, 20, 'Z90', formula, inputs)
+        ref = 'Z90'
+        if o['exp'].get('k') == 'a':
+            # an array result is observed over a destination range of its own shape
+            R, C = len(o['exp']['rows']), len(o['exp']['rows'][0])
+            ref = 'T50' if (R, C) == (1, 1) else 'T50:%s%d' % (chr(ord('T') + C - 1), 50 + R - 1)
+        st, val = impl.observe(impl.with_timeout, impl.cell_eval, 20, ref, formula, inputs)
         if st == 'raise':
             obs, ok, got = None, False, 'raise:' + val[:100]
         else:
@@ -122,7 +127,8 @@ def main():
                           {'function': fn, 'formula': formula, 'expected': want, 'observed': got,
                            'inputs': {k: V.show({'k': 'a', 'rows': a['v']['rows']})
                                       for k, a in zip(inp, [x for x in o['args'] if x['f'] == 'r'])},
-                           'how': "Cell('Z90', formula) with the referenced ranges supplied"})
+                           'how': "Cell('Z90' or a range of the result's shape, formula) with the "
+                                  "referenced ranges supplied"})
     rep.traces(len(res))
     for fn, formula, inp, ok, want, got, o in res[:6]:
         rep.sample({'formula': formula, 'expected': want})
@@ -131,7 +137,8 @@ def main():
                        'functions over all value kinds, 30 mathematical functions (rounding over '
                        'halves and exact decimals x digits -3..3, sign cases of MOD / CEILING / '
                        'FLOOR), 15 text functions (positions 0 / negative / past the end, wild '
-                       'cards, optional arguments); distinct by formula text and inputs')
+                       'cards, optional arguments); element-wise functions over row / column / square '
+                       'arrays and broadcasts of them; distinct by formula text and inputs')
     rep.cov['exhaustive'] = True
     return rep.finish()
 
